@@ -559,11 +559,16 @@ private:
     auto& wheel = _wheels[level];
     auto& bucket = wheel.buckets[wheel.currentTick & _tickMask];
 
+    // Detach the whole list first: a re-insertion may land in this very bucket
+    // (top level, remaining >= wheel range) and must not be walked again.
     auto* entry = bucket.head;
+    bucket.head = nullptr;
+    bucket.tail = nullptr;
     while (entry)
     {
       auto* next = entry->next;
-      bucket.unlink(entry);
+      entry->prev = nullptr;
+      entry->next = nullptr;
 
       if (entry->deadline <= now)
       {
